@@ -311,3 +311,40 @@ Fixpoint mismatches_from (i : nat) (l : list case) : list nat :=
   end.
 Definition mismatches := mismatches_from 0.
 Definition select {A} (idx : list nat) (l : list A) : list A := CodecCorr.select idx l.
+
+(* ---------------------------------------------------------------------------------------------------- sanity of the glue itself
+   (closed computations; they keep the modulo-order comparison and the flattening from silently degenerating) *)
+(* {"a":1,"b":[{"x":1,"y":2}]}  ~  {"b":[{"y":2,"x":1}],"a":1} *)
+Example json_modulo_order_accepts :
+  json_same_modulo_order
+    [x7b;x22;x61;x22;x3a;x31;x2c;x22;x62;x22;x3a;x5b;x7b;x22;x78;x22;x3a;x31;x2c;x22;x79;x22;x3a;x32;x7d;x5d;x7d]
+    [x7b;x22;x62;x22;x3a;x5b;x7b;x22;x79;x22;x3a;x32;x2c;x22;x78;x22;x3a;x31;x7d;x5d;x2c;x22;x61;x22;x3a;x31;x7d] = true.
+Proof. vm_compute. reflexivity. Qed.
+(* {"a":1,"b":2}  vs  {"a":2,"b":1}  and array order matters: [1,2] vs [2,1] *)
+Example json_modulo_order_rejects :
+  json_same_modulo_order [x7b;x22;x61;x22;x3a;x31;x2c;x22;x62;x22;x3a;x32;x7d] [x7b;x22;x61;x22;x3a;x32;x2c;x22;x62;x22;x3a;x31;x7d] = false
+  /\ json_same_modulo_order [x5b;x31;x2c;x32;x5d] [x5b;x32;x2c;x31;x5d] = false.
+Proof. vm_compute. split; reflexivity. Qed.
+(* (a:1,b:List((x:1,y:''),2))  ~  (b:List((y:'',x:1),2),a:1) *)
+Example ror2_modulo_order_accepts :
+  ror2_same_modulo_order
+    [x28;x61;x3a;x31;x2c;x62;x3a;x4c;x69;x73;x74;x28;x28;x78;x3a;x31;x2c;x79;x3a;x27;x27;x29;x2c;x32;x29;x29]
+    [x28;x62;x3a;x4c;x69;x73;x74;x28;x28;x79;x3a;x27;x27;x2c;x78;x3a;x31;x29;x2c;x32;x29;x2c;x61;x3a;x31;x29] = true.
+Proof. vm_compute. reflexivity. Qed.
+(* (a:1,b:2) vs (a:2,b:1);  (a:%41) vs (a:A): raw tokens are compared;  List(1,2) vs List(2,1) *)
+Example ror2_modulo_order_rejects :
+  ror2_same_modulo_order [x28;x61;x3a;x31;x2c;x62;x3a;x32;x29] [x28;x61;x3a;x32;x2c;x62;x3a;x31;x29] = false
+  /\ ror2_same_modulo_order [x28;x61;x3a;x25;x34;x31;x29] [x28;x61;x3a;x41;x29] = false
+  /\ ror2_same_modulo_order [x4c;x69;x73;x74;x28;x31;x2c;x32;x29] [x4c;x69;x73;x74;x28;x32;x2c;x31;x29] = false.
+Proof. vm_compute. repeat split; reflexivity. Qed.
+(* flattening keeps the environment's indices, removes every include and keeps every field *)
+Example flat_env_shape :
+  length fam_env_root = length fam_env
+  /\ forallb (fun d => match d with DRecord incs _ => match incs with [] => true | _ => false end | DUnion _ _ => true end) fam_env_root = true
+  /\ forallb (fun n => match lookup fam_env n, lookup fam_env_root n with
+                       | Some (DRecord incs fs), Some (DRecord _ fs') =>
+                           Nat.eqb (length fs') (length (flat_fields fam_env fuel0 n)) && Nat.leb (length fs) (length fs')
+                       | Some (DUnion _ ms), Some (DUnion _ ms') => Nat.eqb (length ms) (length ms')
+                       | _, _ => false
+                       end) (seq 0 (length fam_env)) = true.
+Proof. vm_compute. repeat split; reflexivity. Qed.
